@@ -78,3 +78,130 @@ Fixpoint first_diff (i : N) (l m : list (out * list ev)) : option (N * option (o
 
 Definition sys_explain (c : bool * list op * list (out * list ev)) :=
   let '(rel, ops, obs) := c in first_diff 0 (snd (run (init_st rel) ops)) obs.
+
+(* ------------------------------------------------------------------------------------------
+   Property monitors evaluated on the model run (which the correspondence shows to be the
+   implementation's run).  Each is the executable form of a theorem statement. *)
+
+(* C10: what is declared non-reloadable is never rewritten *)
+Definition protected (s : st) (k : key) (e : entry) : bool :=
+  negb (hot_reloaded (fst k)) || negb (has_reloader s) || en_goi e.
+
+Definition removes (o : op) (k : key) : bool :=
+  match o with
+  | ORemove t id | OTake t id => key_eqb (t, id) k
+  | OClear => true
+  | _ => false
+  end.
+
+Definition entry_same (a b : entry) : bool :=
+  value_eqb (en_val a) (en_val b) && N.eqb (en_tok a) (en_tok b) && N.eqb (en_rid a) (en_rid b)
+  && N.eqb (en_rid b) 0.
+
+Definition c10_step_ok (s : st) (o : op) (s' : st) : bool :=
+  forallb (fun ke : key * entry =>
+             if protected s (fst ke) (snd ke) && negb (removes o (fst ke)) then
+               match cache_get s' (fst ke) with
+               | Some e' => entry_same (snd ke) e'
+               | None => false
+               end
+             else true) (cache s).
+
+Fixpoint c10_run (s : st) (ops : list op) : bool :=
+  match ops with
+  | [] => true
+  | o :: r => let '(s1, _, _) := step default_fuel s o in c10_step_ok s o s1 && c10_run s1 r
+  end.
+
+(* C05: after a pass, every plain asset the pass visited holds what a fresh load gives *)
+Fixpoint plain_line (l : line) : bool :=
+  match l with
+  | LVal _ | LLoad _ _ | LOwned _ _ | LReadFile _ _ | LReadDir _ | LFail | LPanic => true
+  | LTry l' => plain_line l'
+  | LCached _ _ | LNoRec _ | LThread _ | LInsert _ _ => false
+  end.
+
+Definition plain_key (s : st) (k : key) : bool :=
+  match fst k with
+  | TN =>
+      match assoc fkey_eqb (snd k, "n") (files (src s)) with
+      | Some (FPresent (CScript _ ls)) => forallb plain_line ls
+      | _ => true
+      end
+  | TRI => false   (* concatenation order follows the listing; sub-directories are their own assets *)
+  | _ => true
+  end.
+
+(* a fresh load "from the current source and current cache", on a scratch copy of the state *)
+Definition fresh_value (s : st) (k : key) : option value :=
+  let scratch := set_recs {| src := {| files := files (src s); dirs := dirs (src s); faults := []; reads := 0 |};
+                             cache := cache s; next_tok := next_tok s; has_reloader := false;
+                             recs := []; cm := []; graph := []; to_reload := []; static_mode := false;
+                             watchers := [] |} [] in
+  match load_wrapped (load_entry_f default_fuel) (load_owned_f default_fuel) scratch (fst k) (snd k) with
+  | (_, _, ROk (v, _)) => Some v
+  | _ => None
+  end.
+
+Definition asset_deps (s : st) (k : key) : list dep :=
+  match g_get (graph s) (DepAsset k) with Some n => g_deps n | None => [] end.
+
+Fixpoint late_bound (s s' : st) (order : list key) : bool :=
+  match order with
+  | [] => false
+  | k :: r =>
+      existsb (fun d => match d with
+                        | DepAsset k' => key_mem k' r && negb (dep_mem d (asset_deps s k))
+                        | _ => false
+                        end) (asset_deps s' k)
+      || late_bound s s' r
+  end.
+
+Definition no_faults (s : st) : bool := match faults (src s) with [] => true | _ => false end.
+
+(* 0 fine, 1 stale without excuse, 2 stale after a late-bound / cyclic pass (known finding D8) *)
+Definition c05_pass_code (s : st) (order : list key) (s' : st) : N :=
+  if negb (no_faults s) then 0%N else
+  let stale := existsb (fun k =>
+                          match cache_get s' k with
+                          | Some e =>
+                              en_dyn e && plain_key s' k &&
+                              match fresh_value s' k with
+                              | Some v => negb (value_eqb v (en_val e))
+                              | None => false
+                              end
+                          | None => false
+                          end) order in
+  if stale then (if late_bound s s' order || has_cycle (graph s) order then 2%N else 1%N) else 0%N.
+
+Definition op_order (s : st) (o : op) : option (list key) :=
+  match o with
+  | OHotReload order => if static_mode s then None else Some order
+  | ONotify _ order => if static_mode s then Some order else None
+  | OEnhance order => Some order
+  | _ => None
+  end.
+
+Fixpoint c05_run (s : st) (ops : list op) (acc : N) : N :=
+  match ops with
+  | [] => acc
+  | o :: r =>
+      let '(s1, _, _) := step default_fuel s o in
+      let s0 := match o with ONotify es _ => take_events (drain s) es | OEnhance _ => set_static (drain s) true | _ => drain s end in
+      let c := match op_order s o with
+               | Some order => if has_reloader s then c05_pass_code s0 order s1 else 0%N
+               | None => 0%N
+               end in
+      c05_run s1 r (if N.eqb acc 1 then 1%N else if N.eqb c 0 then acc else c)
+  end.
+
+(* the codes reported for a case: correspondence first, then the monitors *)
+Definition sys_code (c : bool * list op * list (out * list ev)) : N :=
+  let '(rel, ops, obs) := c in
+  if negb (steps_agree (snd (run (init_st rel) ops)) obs) then 1%N
+  else if negb (c10_run (init_st rel) ops) then 3%N
+  else match c05_run (init_st rel) ops 0%N with
+       | 1%N => 4%N
+       | 2%N => 2%N
+       | _ => 0%N
+       end.
